@@ -82,6 +82,67 @@ func c15(w *World) {
 		}
 	}
 
+	// a peer that answers a Logout the moment it sees it (a task of its own: the answer can be
+	// dispatched while the caller of Logout()/Stop() has not returned yet)
+	reactive := ending != "peer-logout" && w.W.Chance(1, 3)
+	reactiveOff := false
+	var answeredAt time.Time
+	if reactive {
+		w.Cfg("reactive_peer", true)
+		base := len(sc.P.Msgs())
+		simrt.GoHarness("reactive-peer", func() {
+			simrt.WaitFor("harness.reactive", func() bool { return reactiveOff || sc.P.EOF || count(sc.P.Msgs()[base:], "5") > 0 })
+			if reactiveOff || sc.P.EOF {
+				return
+			}
+			sc.P.Send(sc.Msg("5"))
+			answeredAt = time.Now()
+		})
+		defer func() { reactiveOff = true }()
+	}
+	if reactive {
+		name, f := "Logout", s.Logout
+		if ending == "stop" {
+			name, f = "Stop", s.Stop
+		}
+		t0 := time.Now()
+		if !call(name, f) {
+			return
+		}
+		sc.Settle()
+		r := dropTimer(sc.P.Take())
+		if !sc.checkFraming(r) {
+			return
+		}
+		if answeredAt.IsZero() {
+			w.Violate("local-logout-sent", "count=0", fmt.Sprintf("%s() put %q on the wire, want exactly one Logout", name, typesOf(r)))
+		} else {
+			if n := count(r, "5"); n != 1 {
+				w.Violate("second-logout", role+"/reactive-"+ending, fmt.Sprintf("%s() answered at once by the peer's Logout: %q on the wire, want exactly one Logout", name, typesOf(r)))
+			}
+			// Stop() with a zero close timeout: the deadline and the immediate answer tie, the session may
+			// have ended before the answer is dispatched; only "no second Logout" applies then
+			tie := ending == "stop" && ct == 0
+			if !tie && sc.LogoutEvents() != evBefore+1 {
+				w.Violate("logout-event", role+"/reactive-"+ending, fmt.Sprintf("EventLogout fired %d times on the peer's immediate answer, want once", sc.LogoutEvents()-evBefore))
+			}
+			if !tie && s.IsLogged() {
+				w.Violate("local-logout-still-logged", role+"/reactive-"+ending, "IsLogged() is true after a completed logout")
+			}
+			if ending == "stop" && ct > 0 {
+				simrt.Settle()
+				if !doneSeen {
+					w.Violate("stop-not-on-answer", "reactive", fmt.Sprintf("peer answered the Logout of Stop() at once (CloseTimeout %v) but the session context is not cancelled at that instant", ct))
+				} else if doneAt.After(answeredAt) {
+					w.Violate("stop-not-on-answer", "reactive-late", fmt.Sprintf("context cancelled %v after the answer", doneAt.Sub(answeredAt)))
+				}
+				_ = t0
+			}
+			w.Probe("reactive_peer_answer")
+		}
+		sc.Teardown()
+		return
+	}
 	switch ending {
 	case "peer-logout":
 		r := dropTimer(sc.Step(sc.Msg("5")))
